@@ -117,7 +117,7 @@ func byteOrderOf(info *types.Info, c *ast.CallExpr) (order, method string) {
 	}
 	recv := fn.Type().(*types.Signature).Recv()
 	if recv == nil {
-		return "", ""
+		return "pkgfunc", fn.Name() // binary.PutUvarint, binary.Uvarint, binary.Write, ...
 	}
 	rt := recv.Type().String()
 	switch {
@@ -170,6 +170,10 @@ func propC19(p *Prog, r *Report) {
 				r.Undecided("C19.a", cons, row.Pos, "encoding idiom of this field is not one the checker knows")
 				continue
 			}
+			if strings.HasPrefix(row.Enc, "other-binary:") {
+				r.Viol("C19.a", cons, row.Pos, fmt.Sprintf("%s side encodes %s with encoding/binary.%s; the record format is %s", side, fld, strings.TrimPrefix(row.Enc, "other-binary:"), g.Enc))
+				continue
+			}
 			ok = row.Lo == g.Lo && row.Hi == g.Hi && row.Enc == g.Enc
 			r.Check(ok, "C19.a", cons, row.Pos,
 				fmt.Sprintf("%s [%d:%d] %s", fld, row.Lo, row.Hi, row.Enc),
@@ -185,6 +189,8 @@ func propC19(p *Prog, r *Report) {
 	c19Guards(p, r, mar, unm)
 	c19Keys(p, r)
 	c19GetAll(p, r)
+	r.Rule("C19.e", "independent decoding: the decoder assigns every field on every success path, or every call site decodes into a fresh record")
+	c19DecodeTargetFresh(p, r, "C19.e")
 }
 
 func c19WriterTable(p *Prog, r *Report, mar *FuncInfo) map[string]layoutRow {
@@ -236,10 +242,12 @@ func c19WriterTable(p *Prog, r *Report, mar *FuncInfo) map[string]layoutRow {
 				}
 			}
 		} else if order, m := byteOrderOf(info, c); order != "" {
-			if m == "PutUint64" {
+			if order == "pkgfunc" {
+				row.Enc = "other-binary:" + m
+			} else if m == "PutUint64" {
 				row.Enc = "uint64-" + order
 			} else {
-				row.Enc = m + "-" + order
+				row.Enc = "other-binary:" + order + "." + m
 			}
 		} else {
 			row.Enc = "unrecognised"
@@ -294,10 +302,12 @@ func c19ReaderTable(p *Prog, r *Report, unm *FuncInfo) map[string]layoutRow {
 					return true
 				}
 				if order, m := byteOrderOf(info, c); order != "" {
-					if m == "Uint64" {
+					if order == "pkgfunc" {
+						row.Enc = "other-binary:" + m
+					} else if m == "Uint64" {
 						row.Enc = "uint64-" + order
 					} else {
-						row.Enc = m + "-" + order
+						row.Enc = "other-binary:" + order + "." + m
 					}
 					return false
 				}
